@@ -60,6 +60,7 @@ TIERS = {
     "thorough": dict(gen="Gen_thorough", n=32),
 }
 GOMAXPROCS = ["1", "2", "16"]
+TLC_WORKERS = int(os.environ.get("C07_TLC_WORKERS", "0")) or None      # development aid on a loaded machine; default: all cores
 LANGS = ["go", "java", "py", "cpp", "rb", "php", "js", "rs", "swift", "lua", "cs", "perl"]
 
 
@@ -500,7 +501,7 @@ def model_check(ctx, cases_by_key):
         inv = "Deterministic" if r["layer"] == "A" else "DivergesOnlyWhereLeaky ReportDivergence"
         cfg = MC_CFG % dict(r, inv=inv)
         res = ctx.tlc("Determinism", "MC_Determinism", "mc.cfg", files={"mc.cfg": cfg, "PersistSpec.tla": persist},
-                      timeout=3000, label="MC_Determinism[%s %s x %s perm=%d jobs=%d]" % (
+                      timeout=3000, workers=TLC_WORKERS, label="MC_Determinism[%s %s x %s perm=%d jobs=%d]" % (
                           r["layer"], r["progs"], r["cfgs"], r["perm"], r["jobs"]))
         if r["layer"] == "A":
             continue
@@ -551,7 +552,7 @@ def replacer_conformance(ctx):
     inproc = ctx.build_harness("inproc")
     markers, reps = (2, 8) if ctx.tier == "quick" else (3, 32)
     r = ctx.tlc("Determinism", "Replacer", "rep.cfg", files={"rep.cfg": REPLACER_CFG % dict(markers=markers)},
-                timeout=1500, label="Replacer[markers=%d]" % markers)
+                timeout=1500, workers=TLC_WORKERS, label="Replacer[markers=%d]" % markers)
     cases = ctx.tlc_cases(r, prefix="RCASE ")
     if not cases:
         raise vlib.MachineryError("Replacer emitted no cases")
@@ -615,7 +616,7 @@ def run(ctx, args):
         cases = [norm_case(rp["case"])]
         n = max(TIERS["thorough"]["n"], int(rp["case"].get("n", 0)))
     else:
-        r = ctx.tlc("Determinism", "Gen_Determinism", tier["gen"], timeout=1500, label=tier["gen"])
+        r = ctx.tlc("Determinism", "Gen_Determinism", tier["gen"], timeout=1500, workers=TLC_WORKERS, label=tier["gen"])
         cases, dup = [], set()
         for c in sorted((norm_case(c) for c in ctx.tlc_cases(r)), key=lambda c: (c["cfg"]["name"] == "s", c["id"])):
             k = json.dumps([c["cfg"]["backend"], c["cfg"]["opts"], c["cfg"]["plugin"], c["cfg"]["recursive"], c["p"]],
